@@ -10,8 +10,9 @@ pub open spec fn cmd_wf(c: Command) -> bool {
         // keys, if given, are as many as channels (ParameterDoesntMatch otherwise); no channel name is listed twice: the parser passes the
         // list through dedup_join_list (PROVED, unit joinlist: distinct names) - that it does so is part of the assumed, pinned parser contract
         Command::JOIN { channels, keys } => (keys is Some ==> keys->0@.len() == channels@.len()) && distinct_names(channels@),
-        // Command::validate: every letter that takes an argument has one, +l takes a number
-        Command::MODE { target, modes } => all_mode_args_ok(modes@),
+        // Command::validate: for a channel target (validate_channelmodes) every letter that takes an argument has one, +l takes a number;
+        // for a user target nothing is promised about the arguments (validate_usermodes looks at the letters only)
+        Command::MODE { target, modes } => is_channel_name(target@) ==> all_mode_args_ok(modes@),
         _ => true,
     }
 }
